@@ -32,7 +32,9 @@ UNITS = [
       note="count-overflow / NULL / buffer-too-small gates for EVERY n_before, n_new, length (exact-size objects): inputs restricted to those the specification rejects before the first loop; entering a loop fails the unwinding assertion"),
 ]
 
-# NOT LISTED (undecided, kept as a record): the loop-contract versions of the two gate units (same harnesses without
+# NOT LISTED (undecided, kept as a record; written BEFORE the audit rework - the invariants name ghost variables of the
+# old sticky-flag contracts and would have to be restated over the hit flags of contracts/assumed_C17.h; --slice-formula, which cut the
+# bounded units 3-4x, was not yet tried on them): the loop-contract versions of the two gate units (same harnesses without
 # C17_NBOUND, n / n_before / n_new unbounded, exact-size objects).  goto-instrument accepts the contracts below, but cbmc
 # runs out of the 12 GB limit in the SAT back end (DFCC write-set maps: ~200 sets x 2^12 object slots = 32 M clauses before
 # any program logic, plus symbolic-offset reads of the callers' unbounded arrays); with --object-bits 10 (not selectable
